@@ -185,7 +185,13 @@ func delegatedErr(kind int64, data []byte, buf *rjson.Buffer) error {
 // (hostile offset, fresh error). With nesting=1 the failing handler is the handler of an
 // inner traversal started by the outer handler on the first container member; the outer
 // handler passes the inner error on unchanged.
-func c09Check(in []byte, kind byte, failAt int, offSel, errKind int64, nested bool, bits uint64, buf *rjson.Buffer) (reached, nontrivial bool, err error) {
+//
+// pre (optional 8th int) makes the failing call do successful work on its member first, with
+// the traversal's own Buffer, the way a handler that decodes a member and then rejects it
+// behaves: 1 = a nested traversal of the member with a declining handler, 2 = SkipValue,
+// 3 = SkipValueFast, 4 = Valid on the member's bytes, 5 = a nested traversal whose handler
+// skips every member with SkipValue, 6 = ReadValue (no Buffer involved).
+func c09Check(in []byte, kind byte, failAt int, offSel, errKind int64, nested bool, bits uint64, buf *rjson.Buffer, pre int64) (reached, nontrivial bool, err error) {
 	sentinel := mkErr(errKind % errKinds)
 	if errKind%errKinds < 8 {
 		sentinel = mkErr(errKind % 4)
@@ -201,6 +207,7 @@ func c09Check(in []byte, kind byte, failAt int, offSel, errKind int64, nested bo
 						sentinel = de // the handler passes on the library's own error value
 					}
 				}
+				c09PreWork(pre, data, buf)
 				return usedOff, sentinel
 			}
 			if k > failAt {
@@ -275,6 +282,35 @@ func c09Check(in []byte, kind byte, failAt int, offSel, errKind int64, nested bo
 	return true, true, nil
 }
 
+// c09PreWork: what the failing call does with its member before it returns the error.
+func c09PreWork(pre int64, data []byte, buf *rjson.Buffer) {
+	decline := &recHandler{limit: len(data) + 2}
+	decline.decide = func(int, []byte, []byte) (int, error) { return 0, nil }
+	skipper := &recHandler{limit: len(data) + 2}
+	skipper.decide = func(_ int, _ []byte, d []byte) (int, error) { return rjson.SkipValue(d, buf) }
+	container := len(data) > 0 && (data[0] == '[' || data[0] == '{')
+	switch pre {
+	case 1:
+		if container {
+			_, _ = traverse(data[0], data, decline, buf)
+		}
+	case 2:
+		_, _ = rjson.SkipValue(data, buf)
+	case 3:
+		_, _ = rjson.SkipValueFast(data, buf)
+	case 4:
+		if p, err := rjson.SkipValue(data, nil); err == nil {
+			_ = rjson.Valid(data[:p], buf)
+		}
+	case 5:
+		if container {
+			_, _ = traverse(data[0], data, skipper, buf)
+		}
+	case 6:
+		_, _, _ = rjson.ReadValue(data)
+	}
+}
+
 // chainHandler is a recursive handler: on a container member it starts a nested traversal
 // (same Buffer) with itself as handler, and whatever that returns it answers with an error
 // value of its own for this level - the way code that adds context to errors behaves. Every
@@ -344,7 +380,11 @@ func CheckC09(c *core.Case) error {
 	if len(c.Ints) < 7 {
 		return fmt.Errorf("bad case: need 7 ints")
 	}
-	_, _, err := c09Check([]byte(c.In), byte(c.Ints[0]), int(c.Ints[1]), c.Ints[2], c.Ints[3], c.Ints[4] != 0, uint64(c.Ints[5]), bufferConfig(c.Ints[6]))
+	pre := int64(0)
+	if len(c.Ints) > 7 {
+		pre = c.Ints[7]
+	}
+	_, _, err := c09Check([]byte(c.In), byte(c.Ints[0]), int(c.Ints[1]), c.Ints[2], c.Ints[3], c.Ints[4] != 0, uint64(c.Ints[5]), bufferConfig(c.Ints[6]), pre)
 	return err
 }
 
